@@ -118,6 +118,84 @@ static bool model_equal(const MVal& a, const MVal& b) {
   return r == EQUAL;
 }
 
+// three-valued deep equality: EQUAL, DIFFER, or UNKNOWN when the statement leaves a nested comparison open
+static Ref deep_eq(const MVal& a, const MVal& b) {
+  bool ac = a.k == MVal::Arr || a.k == MVal::Obj, bc = b.k == MVal::Arr || b.k == MVal::Obj;
+  if (!ac && !bc) {
+    Ref r = ref_compare(a, b);
+    if (r == EQUAL) return EQUAL;
+    if (r == LESS || r == GREATER || r == DIFFER) return DIFFER;
+    if (a.k == b.k && (a.k == MVal::Str || a.k == MVal::Bool)) return DIFFER;   // different bytes / different truth values
+    return UNKNOWN;
+  }
+  if (a.k != b.k) return DIFFER;
+  bool unknown = false;
+  if (a.k == MVal::Arr) {
+    if (a.a.size() != b.a.size()) return DIFFER;
+    for (size_t i = 0; i < a.a.size(); i++) { Ref r = deep_eq(a.a[i], b.a[i]); if (r == DIFFER) return DIFFER; if (r == UNKNOWN) unknown = true; }
+  } else {
+    if (a.o.size() != b.o.size()) return DIFFER;
+    for (auto& kv : a.o) { const MVal* o = b.find(kv.first); if (!o) return DIFFER; Ref r = deep_eq(kv.second, *o); if (r == DIFFER) return DIFFER; if (r == UNKNOWN) unknown = true; }
+  }
+  return unknown ? UNKNOWN : EQUAL;
+}
+
+// small containers over a tiny alphabet of keys and scalars (many nulls), so that edits collide
+static MVal gen_small(Rng& r, int depth, bool force_container) {
+  static const char* keys[] = {"a", "b", "c", "d", "", "ab"};
+  if (!force_container && (depth >= 3 || r.chance(3, 5))) {
+    switch (r.below(12)) {
+      case 0: case 1: case 2: return MVal::null();
+      case 3: return MVal::boolean(r.coin());
+      case 4: return MVal::uint(0);
+      case 5: return MVal::uint(1);
+      case 6: return MVal::flt(1.0);
+      case 7: return MVal::sint(-1);
+      case 8: return MVal::str("a");
+      case 9: return MVal::str("");
+      case 10: return MVal::flt(0.5);
+      default: return MVal::str("1");
+    }
+  }
+  size_t n = (size_t)r.below(5);
+  if (r.coin()) { MVal m = MVal::arr(); for (size_t i = 0; i < n; i++) m.a.push_back(gen_small(r, depth + 1, false)); return m; }
+  MVal m = MVal::obj();
+  for (size_t i = 0; i < n; i++) { std::string k = r.pick(keys); if (!m.find(k)) m.o.emplace_back(k, gen_small(r, depth + 1, false)); }
+  return m;
+}
+
+static void collect_containers(MVal& m, std::vector<MVal*>& out) {
+  if (m.k == MVal::Arr) { out.push_back(&m); for (auto& e : m.a) collect_containers(e, out); }
+  else if (m.k == MVal::Obj) { out.push_back(&m); for (auto& kv : m.o) collect_containers(kv.second, out); }
+}
+
+static const char* edit_small(Rng& r, MVal& root) {
+  static const char* keys[] = {"a", "b", "c", "d", "", "ab"};
+  std::vector<MVal*> cs; collect_containers(root, cs);
+  MVal& t = *cs[r.below(cs.size())];
+  if (t.k == MVal::Obj) {
+    size_t n = t.o.size();
+    switch (r.below(7)) {
+      case 0: if (n) { std::string k = r.pick(keys); if (!t.find(k)) { t.o[r.below(n)].first = k; return "rename-key"; } } return "none";
+      case 1: if (n) { t.o[r.below(n)].second = MVal::null(); return "member-to-null"; } return "none";
+      case 2: if (n) { t.o.erase(t.o.begin() + (long)r.below(n)); return "remove-member"; } return "none";
+      case 3: { std::string k = r.pick(keys); if (!t.find(k)) { t.o.emplace_back(k, r.coin() ? MVal::null() : gen_small(r, 3, false)); return "add-member"; } return "none"; }
+      case 4: if (n > 1) { std::swap(t.o[r.below(n)], t.o[r.below(n)]); return "permute"; } return "none";
+      case 5: if (n) { auto& v = t.o[r.below(n)].second; if (v.k == MVal::Int && !v.neg) { v = MVal::flt((double)v.mag); return "same-number-other-storage"; } } return "none";
+      default: if (n) { t.o[r.below(n)].second = gen_small(r, 2, false); return "replace-member"; } return "none";
+    }
+  }
+  size_t n = t.a.size();
+  switch (r.below(6)) {
+    case 0: t.a.push_back(MVal::null()); return "append-null";
+    case 1: if (n) { t.a.pop_back(); return "drop-last"; } return "none";
+    case 2: if (n) { t.a[r.below(n)] = MVal::null(); return "element-to-null"; } return "none";
+    case 3: if (n > 1) { std::swap(t.a[r.below(n)], t.a[r.below(n)]); return "swap-elements"; } return "none";
+    case 4: if (n) { auto& v = t.a[r.below(n)]; if (v.k == MVal::Int && !v.neg) { v = MVal::flt((double)v.mag); return "same-number-other-storage"; } } return "none";
+    default: if (n) { t.a[r.below(n)] = gen_small(r, 2, false); return "replace-element"; } return "none";
+  }
+}
+
 struct Ops { bool eq, ne, lt, le, gt, ge; };
 template <class A, class B> static Ops ops(const A& a, const B& b) { return Ops{a == b, a != b, a < b, a <= b, a > b, a >= b}; }
 
@@ -189,6 +267,41 @@ void vf_run_case(Ctx& c, uint64_t index) {
     c.outcome(r == UNKNOWN ? "laws-only" : "laws+value");
     c.nontrivial(index);
     if ((index % 9973) == 0) c.sample(wit);
+    return;
+  }
+  if (c.mode == "containers") {
+    Rng r(c.seed, 18, index);
+    MVal a = gen_small(r, 0, true), b = a;
+    std::string edits;
+    int ne = (int)r.below(4);
+    for (int k = 0; k < ne; k++) { const char* e = edit_small(r, b); if (strcmp(e, "none")) { edits += edits.empty() ? "" : ","; edits += e; c.count(std::string("edit:") + e); } }
+    if (r.chance(1, 6)) b = gen_small(r, 0, true);   // unrelated pair
+    Ref rr = deep_eq(a, b);
+    std::string wit = "a = " + describe(a, 200) + "   b = " + describe(b, 200) + (edits.empty() ? "" : "   (b = a after " + edits + ")");
+    AJ::JsonDocument da, db;
+    build(da.to<AJ::JsonVariant>(), a); build(db.to<AJ::JsonVariant>(), b);
+    if (r.coin()) { da.clear(); da[0]["x"] = 1; da.remove(0); build(da.to<AJ::JsonVariant>(), a); }   // recycled slots
+    AJ::JsonVariantConst va = da.as<AJ::JsonVariantConst>(), vb = db.as<AJ::JsonVariantConst>();
+    { Ops ab = ops(va, vb), ba = ops(vb, va); laws(c, ab, ba, rr, "variants: " + wit); }
+    { Ops ab = ops(da, db), ba = ops(db, da); laws(c, ab, ba, rr, "documents: " + wit); }
+    if (a.k == MVal::Arr && b.k == MVal::Arr) {
+      bool e1 = va.as<AJ::JsonArrayConst>() == vb.as<AJ::JsonArrayConst>(), e2 = vb.as<AJ::JsonArrayConst>() == va.as<AJ::JsonArrayConst>();
+      bool e3 = da.as<AJ::JsonArray>() == db.as<AJ::JsonArray>();
+      if (e1 != e2) c.violation("law-eq-symmetric", "JsonArrayConst a==b differs from b==a", wit);
+      if (rr != UNKNOWN && (e1 != (rr == EQUAL) || e3 != e1)) c.violation("agrees-with-values", "JsonArray(Const) == disagrees with element-wise equality", wit);
+    }
+    if (a.k == MVal::Obj && b.k == MVal::Obj) {
+      bool e1 = va.as<AJ::JsonObjectConst>() == vb.as<AJ::JsonObjectConst>(), e2 = vb.as<AJ::JsonObjectConst>() == va.as<AJ::JsonObjectConst>();
+      bool e3 = da.as<AJ::JsonObject>() == db.as<AJ::JsonObject>();
+      if (e1 != e2) c.violation("law-eq-symmetric", "JsonObjectConst a==b differs from b==a", wit);
+      if (rr != UNKNOWN && (e1 != (rr == EQUAL) || e3 != e1)) c.violation("agrees-with-values", "JsonObject(Const) == disagrees with member-wise equality", wit);
+    }
+    // a container against itself and against its own copy in a third document
+    { AJ::JsonDocument dc; dc.set(va); Ops ab = ops(va, dc.as<AJ::JsonVariantConst>()), ba = ops(dc.as<AJ::JsonVariantConst>(), va); Ref self = deep_eq(a, a); laws(c, ab, ba, self, "value vs its copy: " + wit); }
+    c.count("pair_comparisons", 3);
+    c.outcome(rr == EQUAL ? "containers:equal" : rr == DIFFER ? "containers:differ" : "containers:laws-only");
+    c.nontrivial(mix3(mv_hash(a), mv_hash(b), 18));
+    if (c.want_sample()) c.sample(wit);
     return;
   }
   // variant x C++ scalars of 12 types
